@@ -453,7 +453,12 @@ func (i *Interpreter) executeFor(stmt ForStatement, env *Environment) (interface
 		}
 	} else if obj, ok := iterable.(map[string]interface{}); ok {
 		// Iterate over object/map
-		for key, value := range obj {
+		// (in sorted key order, so that the loop is deterministic)
+		for _, key := range sortedKeys(obj) {
+			value, present := obj[key]
+			if !present {
+				continue // removed by the loop body
+			}
 			// Create a fresh environment for each iteration
 			loopEnv := NewChildEnvironment(env)
 
